@@ -72,6 +72,7 @@ type c6ctx struct{ inLoop, inSwitch bool }
 type c6gen struct {
 	stmts  map[string][]*c6stmt
 	blocks map[string][][]*c6stmt
+	narrow bool // the sub-language that goes one node deeper: if / if-else on two conditions, range, tagless switch with one case and an optional default
 }
 
 func (g *c6gen) key(size int, c c6ctx) string {
@@ -161,6 +162,9 @@ func (g *c6gen) allStmts(size int, c c6ctx) []*c6stmt {
 	// if
 	for ci := range c6conds {
 		ci := ci
+		if g.narrow && ci == 0 {
+			continue
+		}
 		for _, sp := range splits(rest, 1) {
 			prod(sp, []c6ctx{c}, func(b [][]*c6stmt) { out = append(out, &c6stmt{kind: c6if, c1: ci, blocks: b, size: size}) })
 		}
@@ -171,6 +175,9 @@ func (g *c6gen) allStmts(size int, c c6ctx) []*c6stmt {
 	// if / else if / else: conditions (c1,c2) restricted to the pairs that can disagree
 	for _, cp := range [][2]int{{1, 2}, {2, 1}, {1, 0}} {
 		cp := cp
+		if g.narrow {
+			break
+		}
 		for _, sp := range splits(rest, 3) {
 			prod(sp, []c6ctx{c, c, c}, func(b [][]*c6stmt) {
 				out = append(out, &c6stmt{kind: c6ifelseif, c1: cp[0], c2: cp[1], blocks: b, size: size})
@@ -180,6 +187,9 @@ func (g *c6gen) allStmts(size int, c c6ctx) []*c6stmt {
 	// loops
 	for _, kd := range []c6kind{c6for3, c6forcond, c6forever, c6range} {
 		kd := kd
+		if g.narrow && kd != c6range {
+			continue
+		}
 		for _, sp := range splits(rest, 1) {
 			prod(sp, []c6ctx{loop}, func(b [][]*c6stmt) { out = append(out, &c6stmt{kind: kd, blocks: b, size: size}) })
 		}
@@ -190,9 +200,14 @@ func (g *c6gen) allStmts(size int, c c6ctx) []*c6stmt {
 		kd := kd
 		for nCases := 1; nCases <= 2; nCases++ {
 			nCases := nCases
+			if g.narrow && (kd != c6swBool || nCases != 1) {
+				continue
+			}
 			condPairs := [][2]int{{0, 0}}
 			if kd == c6swBool {
-				if nCases == 1 {
+				if nCases == 1 && g.narrow {
+					condPairs = [][2]int{{1, 0}}
+				} else if nCases == 1 {
 					condPairs = [][2]int{{1, 0}, {2, 0}}
 				} else {
 					condPairs = [][2]int{{1, 2}, {2, 1}}
@@ -333,6 +348,29 @@ func c6usesConst(bl []*c6stmt) bool {
 		}
 	}
 	return false
+}
+
+// c6oneLine joins the statements of a rendered body on one line: "; " between statements, a blank after an opening
+// brace or a case label and before a closing brace (Go inserts no semicolon there).
+func c6oneLine(body string) string {
+	var out strings.Builder
+	prev := ""
+	for _, l := range strings.Split(body, "\n") {
+		l = strings.TrimSpace(l)
+		if l == "" {
+			continue
+		}
+		switch {
+		case prev == "":
+		case strings.HasSuffix(prev, "{") || strings.HasSuffix(prev, ":") || strings.HasPrefix(l, "}"):
+			out.WriteString(" ")
+		default:
+			out.WriteString("; ")
+		}
+		out.WriteString(l)
+		prev = l
+	}
+	return "\t" + out.String() + "\n"
 }
 
 func c6body(prog []*c6stmt, flavor int) string {
@@ -522,8 +560,14 @@ func (it *c6interp) exec(s *c6stmt, base int) c6sig {
 }
 
 // c6ref runs the reference; ok=false when it does not finish within the fuel.
-func c6ref(prog []*c6stmt) (string, bool) {
-	it := &c6interp{fuel: 1000}
+func c6ref(prog []*c6stmt) (string, bool) { return c6refFrom(prog, 0) }
+
+// c6starts: every program is entered with the counter n at each of these values (n drives every condition, so the
+// initial state selects which branches, clauses and iterations are reachable)
+var c6starts = []int{0, 1, 3}
+
+func c6refFrom(prog []*c6stmt, n0 int) (string, bool) {
+	it := &c6interp{fuel: 1000, n: n0}
 	sg := it.run(prog, 0)
 	if sg == sFuel {
 		return "", false
@@ -534,6 +578,19 @@ func c6ref(prog []*c6stmt) (string, bool) {
 	return fmt.Sprint(it.out), true
 }
 
+// c6refAll: the traces from every start, joined by " | "
+func c6refAll(prog []*c6stmt) (string, bool) {
+	var parts []string
+	for _, n0 := range c6starts {
+		w, ok := c6refFrom(prog, n0)
+		if !ok {
+			return "", false
+		}
+		parts = append(parts, w)
+	}
+	return strings.Join(parts, " | "), true
+}
+
 // program packaging ------------------------------------------------------------
 
 const c6perPkg = 400
@@ -541,13 +598,15 @@ const c6perPkg = 400
 func c6pkgSource(pkg string, bodies []string) string {
 	var b strings.Builder
 	b.WriteString("package " + pkg + "\n\nimport \"fmt\"\n\nvar n int\nvar out []int\nvar two = []int{10, 20}\n\n")
-	b.WriteString("func trace(k int) {\n\tout = append(out, k)\n\tn++\n}\n\nfunc Reset() {\n\tn = 0\n\tout = []int{}\n}\n\nfunc Out() string {\n\treturn fmt.Sprint(out)\n}\n\n")
+	b.WriteString("func trace(k int) {\n\tout = append(out, k)\n\tn++\n}\n\nfunc Reset() {\n\tn = 0\n\tout = []int{}\n}\n\nfunc Start(k int) {\n\tn = k\n\tout = []int{}\n}\n\nfunc Out() string {\n\treturn fmt.Sprint(out)\n}\n\n")
 	for i, body := range bodies {
 		fmt.Fprintf(&b, "func F%d() {\n%s}\n\n", i, body)
 	}
 	b.WriteString("func Main() {\n")
 	for i := range bodies {
-		fmt.Fprintf(&b, "\tReset()\n\tF%d()\n\tfmt.Println(Out())\n", i)
+		for _, n0 := range c6starts {
+			fmt.Fprintf(&b, "\tStart(%d)\n\tF%d()\n\tfmt.Println(Out())\n", n0, i)
+		}
 	}
 	b.WriteString("}\n")
 	return b.String()
@@ -567,18 +626,22 @@ func c6goat(pkg, src string, nf int) []string {
 		return res
 	}
 	for i := 0; i < nf; i++ {
-		m.Call(pkg+".Reset", 0)
-		r := m.Call(fmt.Sprintf("%s.F%d", pkg, i), 0)
-		if r.Failed() {
-			res[i] = "ERROR " + r.Status() + " " + firstLine(fmt.Sprint(r.Err)) + fmt.Sprint(r.HostPanic)
-			continue
+		var parts []string
+		for _, n0 := range c6starts {
+			m.Call(pkg+".Start", 0, goatlang.Int(n0))
+			r := m.Call(fmt.Sprintf("%s.F%d", pkg, i), 0)
+			if r.Failed() {
+				parts = append(parts, "ERROR "+r.Status()+" "+firstLine(fmt.Sprint(r.Err))+fmt.Sprint(r.HostPanic))
+				continue
+			}
+			o := m.Call(pkg+".Out", 1)
+			if o.Failed() || len(o.Rets) != 1 {
+				parts = append(parts, "ERROR reading Out: "+o.String())
+				continue
+			}
+			parts = append(parts, o.Rets[0].String())
 		}
-		o := m.Call(pkg+".Out", 1)
-		if o.Failed() || len(o.Rets) != 1 {
-			res[i] = "ERROR reading Out: " + o.String()
-			continue
-		}
-		res[i] = o.Rets[0].String()
+		res[i] = strings.Join(parts, " | ")
 	}
 	return res
 }
@@ -596,7 +659,7 @@ func c6run(r *report.Run) {
 		goEvery = 25
 		nFlavors = 3
 	}
-	r.Rule("all programs of the control-flow mini language (trace/break/continue/return leaves; if, if-else, if-else-if, 3-clause for, condition for, infinite for, range, tagged and tagless switch with 1-2 cases and default absent/first/middle/last; blocks of 1-2 statements; conditions true, n%2==0, n<3) with at most N statement nodes that the reference interpreter finishes; non-trivial = distinct program containing at least one break/continue/return inside a compound statement")
+	r.Rule("all programs of the control-flow mini language (trace/break/continue/return leaves; if, if-else, if-else-if, 3-clause for, condition for, infinite for, range, tagged and tagless switch with 1-2 cases and default absent/first/middle/last; blocks of 1-2 statements; conditions true, n%2==0, n<3; each also written on a single source line) with at most N statement nodes that the reference interpreter finishes, each entered with the counter n = 0, 1 and 3, plus all programs with N+1 nodes over the narrow sub-language {leaves, if / if-else on two conditions, range, tagless switch with one case and optional default}; non-trivial = distinct program containing at least one break/continue/return inside a compound statement")
 	r.Assume("reference interpreter (structured, ~120 lines) is trusted as far as its cross-validation against the Go toolchain reaches: the complete <=4-node layer in every run", "programs the reference does not finish within 1000 steps are dropped (a program it finishes but goatlang does not is a violation)")
 	g := &c6gen{stmts: map[string][]*c6stmt{}, blocks: map[string][][]*c6stmt{}}
 	top := c6ctx{}
@@ -675,28 +738,44 @@ func c6run(r *report.Run) {
 		}
 		return has(prog, 0)
 	}
-	for size := 1; size <= maxN; size++ {
+	narrowGen := &c6gen{stmts: map[string][]*c6stmt{}, blocks: map[string][][]*c6stmt{}, narrow: true}
+	fullGen := g
+	for size := 1; size <= maxN+1; size++ {
 		if r.Expired() {
 			r.NotExhaustive(fmt.Sprintf("internal deadline reached before layer %d", size))
 			break
+		}
+		g := fullGen
+		if size > maxN {
+			g = narrowGen // one more layer over the narrow sub-language
 		}
 		withGoLayer := size <= 4
 		var cur []item
 		idx := 0
 		emit := func(prog []*c6stmt) {
 			total++
-			want, ok := c6ref(prog)
+			want, ok := c6refAll(prog)
 			if !ok {
 				dropped++
 				return
 			}
 			idx++
 			nt := nontrivial(prog)
-			for fl := 0; fl < nFlavors; fl++ {
-				if fl > 0 && !c6usesConst(prog) {
+			for fl := 0; fl <= nFlavors; fl++ {
+				if fl > 0 && fl < nFlavors && !c6usesConst(prog) {
 					continue // no constant to respell: identical text
 				}
-				cur = append(cur, item{body: c6body(prog, fl), want: want, nontriv: nt})
+				var body string
+				if fl == nFlavors {
+					// layout: the plain program written on ONE source line (nothing may depend on line numbers)
+					if size < 2 {
+						continue
+					}
+					body = c6oneLine(c6body(prog, 0))
+				} else {
+					body = c6body(prog, fl)
+				}
+				cur = append(cur, item{body: body, want: want, nontriv: nt})
 				if len(cur) == c6perPkg {
 					flush(cur, withGoLayer)
 					cur = nil
@@ -725,7 +804,7 @@ func c6run(r *report.Run) {
 			var sel []item
 			k := 0
 			visit := func(prog []*c6stmt) {
-				want, ok := c6ref(prog)
+				want, ok := c6refAll(prog)
 				if !ok {
 					return
 				}
@@ -764,8 +843,12 @@ func c6run(r *report.Run) {
 					r.HarnessError("generated program rejected by the Go toolchain: %s", gr.BuildErr)
 					continue
 				}
-				lines := strings.Split(strings.TrimRight(gr.Out, "\n"), "\n")
-				if len(lines) != len(goItems[k]) || gr.Panicked {
+				raw := strings.Split(strings.TrimRight(gr.Out, "\n"), "\n")
+				var lines []string // one entry per program: its traces from every start
+				for i := 0; i+len(c6starts) <= len(raw); i += len(c6starts) {
+					lines = append(lines, strings.Join(raw[i:i+len(c6starts)], " | "))
+				}
+				if len(raw) != len(goItems[k])*len(c6starts) || gr.Panicked {
 					r.HarnessError("Go oracle output of %s has %d lines for %d programs (panicked=%v)", goProgs[k].Pkg, len(lines), len(goItems[k]), gr.Panicked)
 					continue
 				}
